@@ -275,6 +275,7 @@ def main(prop, tier='quick', seed=0, replay=None, only=None, jobs=None):
     harness_errors = []
     trace_violations = []
     traces_ok = 0
+    cond_by_name = {c.name: c for c in conds}
     trace_gaps = 0
     for a, b in zip(rm['results'], rr['results']):
         if isinstance(a['got'], list) and a['got'] and a['got'][0] == 'GAP':
@@ -286,6 +287,19 @@ def main(prop, tier='quick', seed=0, replay=None, only=None, jobs=None):
                     trace_violations.append(dict(cond=b['cond'], args=b['args'], got=b['got'], exp=b['exp'], source='trace'))
             continue
         if not same_model_real(jnorm(a['got']), jnorm(b['got'])) or not same(jnorm(a['exp']), jnorm(b['exp'])):
+            if (same(jnorm(a['exp']), jnorm(b['exp'])) and b['exp'] is not None and not same(jnorm(b['got']), jnorm(b['exp']))
+                    and not (isinstance(b['got'], list) and b['got'] and b['got'][0] == 'GAP')):
+                # the oracle is the same in both worlds and the REAL library's answer on this concrete input differs from
+                # it: that is a violation shown on the real code whatever the model says (e.g. a result that depends on the
+                # real scheduler's completion order, which no model tape predicts)
+                trace_violations.append(dict(cond=b['cond'], args=b['args'], got=b['got'], exp=b['exp'], source='trace'))
+                continue
+            if (cond_by_name[a['cond']].tape and same(jnorm(a['exp']), jnorm(b['exp'])) and same(jnorm(b['got']), jnorm(b['exp']))
+                    and not same(jnorm(a['got']), jnorm(a['exp']))):
+                # schedule-dependent: the model's tape chose a completion order under which the oracle fails, the real pool
+                # happened not to take it.  Not a model error; the solver stage decides the condition and replays its
+                # counterexample (with the tape turned into per-task delays) on the real library.
+                continue
             harness_errors.append(f"model/real disagree: cond={a['cond']} args={a['args']} model={a['got']!r} real={b['got']!r}")
             continue
         traces_ok += 1
